@@ -2025,7 +2025,21 @@ func calcDescriptorVBIDataLength(d *DescriptorVBIData) uint8 {
 	if d == nil {
 		return 0
 	}
-	return uint8(3 * len(d.Services))
+	ret := 0
+	for _, item := range d.Services {
+		ret += 2 // data_service_id and data_service_descriptor_length
+		if item.DataServiceID == VBIDataServiceIDClosedCaptioning ||
+			item.DataServiceID == VBIDataServiceIDEBUTeletext ||
+			item.DataServiceID == VBIDataServiceIDInvertedTeletext ||
+			item.DataServiceID == VBIDataServiceIDMonochrome442Samples ||
+			item.DataServiceID == VBIDataServiceIDVPS ||
+			item.DataServiceID == VBIDataServiceIDWSS {
+			ret += len(item.Descriptors) // one byte per line
+		} else {
+			ret++ // one reserved byte
+		}
+	}
+	return uint8(ret)
 }
 
 func writeDescriptorVBIData(w *astikit.BitsWriter, d *DescriptorVBIData) error {
@@ -2143,7 +2157,7 @@ func writeDescriptor(w *astikit.BitsWriter, d *Descriptor) (int, error) {
 
 	written := int(length) + 2
 
-	if d.Length == 0 {
+	if length == 0 {
 		return written, nil
 	}
 
